@@ -12,7 +12,7 @@ PROPERTY = "C03"
 LEVEL = "exploration"
 RULE = ("scenario = (items preloaded in the memcached model, client configuration, one call); its reply stream is "
         "recorded with unsplit delivery, then the same scenario is re-run with the stream cut at given positions "
-        "(optionally an EINTR before every piece). Corpus: get/gets/gat/gats hits and misses; values containing CR LF, "
+        "(optionally an EINTR before every piece, reported in rotation as InterruptedError, as a socket wrapper's own OSError subclass with errno EINTR, and as ssl.SSLError with errno EINTR). Corpus: get/gets/gat/gats hits and misses; values containing CR LF, "
         "END, VALUE lines, a lone CR at the end, empty values; multi-key replies; value sizes 0,1,4090..4100,8190..8194,"
         "100000; store/delete/incr/touch/version/flush lines; set_many/delete_many multi-line replies; stats (also "
         "cachedump ITEM lines and valueless STATs); raw_command with end tokens CRLF, END CRLF, LF CR LF END CR LF and "
